@@ -206,7 +206,8 @@ class Filterbank(ABC):
         **plan_kwargs : dict
             Keyword arguments for :func:`read_plan`.
         """
-        bag = ChannelStats(self.header.nchans, self.header.nsamples)
+        nsamps_read = (self.header.nsamples - start) if nsamps is None else nsamps
+        bag = ChannelStats(self.header.nchans, nsamps_read)
         for _, ii, data in self.read_plan(
             gulp=gulp,
             start=start,
@@ -238,7 +239,8 @@ class Filterbank(ABC):
         **plan_kwargs : dict
             Keyword arguments for :func:`read_plan`.
         """
-        bag = ChannelStats(self.header.nchans, self.header.nsamples)
+        nsamps_read = (self.header.nsamples - start) if nsamps is None else nsamps
+        bag = ChannelStats(self.header.nchans, nsamps_read)
         for _, ii, data in self.read_plan(
             gulp=gulp,
             start=start,
